@@ -204,7 +204,7 @@ fn user_mapping(u: &Value, report: &Value) -> MappingEntry {
     let start = resolve(&u["start"], report) as usize;
     // "size": "group" = exactly the merged extent of the mapping group of the target that starts at `start`
     let size = if u["size"].as_str() == Some("group") {
-        let text = std::fs::read_to_string(format!("/proc/{}/maps", report["pid"].as_i64().unwrap_or(0))).unwrap_or_default();
+        let text = String::from_utf8_lossy(&std::fs::read(format!("/proc/{}/maps", report["pid"].as_i64().unwrap_or(0))).unwrap_or_default()).into_owned();
         mapping_groups(&crate::maps::parse_text(&text)).iter().find(|g| g.start as usize == start).map(|g| (g.end - g.start) as usize).unwrap_or(4096)
     } else {
         u["size"].as_u64().unwrap_or(4096) as usize
@@ -465,7 +465,8 @@ fn collect_oracles(report: &Value, pid: i32, blamed: i32, p: &mdparse::Parsed, i
     let tids = target::list_tids(pid);
     o["tids"] = json!(tids);
     o["comm_hex"] = json!(tids.iter().map(|t| json!([t, target::comm_bytes(pid, *t).map(|b| mdparse::hexs(&b))])).collect::<Vec<_>>());
-    o["maps"] = json!(std::fs::read_to_string(format!("/proc/{pid}/maps")).unwrap_or_default());
+    // names in the memory map are arbitrary bytes: read it as bytes
+    o["maps"] = json!(String::from_utf8_lossy(&std::fs::read(format!("/proc/{pid}/maps")).unwrap_or_default()).into_owned());
     // memory fidelity of every memory-list region and every thread stack
     let mut mems = Vec::new();
     if let Some(regs) = p.streams.get("memlist").and_then(|m| m["regions"].as_array()) {
@@ -898,7 +899,7 @@ pub fn run_scenario(scn: &Value, workdir: &str, tr: &mut Trace) {
         }
         t.report["real_auxv"] = Value::Object(aux);
         let mut mods = serde_json::Map::new();
-        if let Ok(text) = std::fs::read_to_string(format!("/proc/{pidn}/maps")) {
+        if let Ok(text) = std::fs::read(format!("/proc/{pidn}/maps")).map(|b| String::from_utf8_lossy(&b).into_owned()) {
             for l in crate::maps::parse_text(&text) {
                 if let Some(n) = l.name.as_deref().filter(|n| n.starts_with('/') || *n == "[vdso]") {
                     let base = n.rsplit('/').next().unwrap_or(n).to_string();
